@@ -153,6 +153,7 @@ package ice
 // port window it applies, and the name it publishes in mDNS gather mode.
 //@ func (*Agent).gatherCandidatesLocal
 //@   props C18
+//@   opt timeout=40
 //@   opt nosafety
 //@   site call gatherCandidatesLocalUDPMux#1 assert mux-host-candidates-only-if-a-udp-type-is-enabled: has(networks, "udp")
 //@   ghostvar pendingUDP int = 0
